@@ -437,6 +437,16 @@ def layout(ctx: Any) -> List[Ob]:
                 hdr.append((bp[1], st.targets[0].attr.replace('_num_', '')))
         if isinstance(st, ast.AugAssign) and self_attr(st.target, rh.params[0]) == 'offset':
             okc, adv_h = prog.try_fold(rh.module, st.value)
+        if isinstance(st, ast.Assign) and self_attr(st.targets[0], rh.params[0]) == 'offset':
+            # `self.offset = offset + 12` where `offset` is the local that holds the cursor on entry
+            from .common import expand as _xp_h
+
+            try:
+                p_h = lf.poly(prog, rh.module, _xp_h(rh, st.value), lambda x: 'CUR' if self_attr(x, rh.params[0]) == 'offset' else None)
+                if p_h.get((('CUR', 1),), 0) == 1 and set(p_h) <= {(('CUR', 1),), ()}:
+                    adv_h = int(p_h.get((), 0))
+            except lf.NotLinear:
+                pass
     hdr.sort()
     obs.append(ob(R, rh, f'reads {hdr}, advances {adv_h}', f'header fields in wire order are {RFC_HEADER}, 12 bytes (RFC 1035 4.1.1)', [f for _, f in hdr] == RFC_HEADER and [o for o, _ in hdr] == [0, 2, 4, 6, 8, 10] and adv_h == 12))
     # rdlength honoured on skip and on decode error
@@ -788,16 +798,22 @@ def prims(ctx: Any) -> List[Ob]:
                 try:
                     env[st.targets[0].id] = P(st.value)
                 except lf.NotLinear:
-                    pass
+                    env.pop(st.targets[0].id, None)
+            elif isinstance(st, ast.AugAssign) and isinstance(st.target, ast.Name) and st.target.id in env and isinstance(st.op, (ast.Add, ast.Sub)):
+                # a local cursor (`offset = self.offset; offset += 1`)
+                env[st.target.id] = lf.p_add(env[st.target.id], P(st.value), 1 if isinstance(st.op, ast.Add) else -1)
             elif isinstance(st, ast.Return) and st.value is not None:
                 scan(st.value, None)
+        totals.append(lf.p_str(adv))
         return slices, advs
+
+    totals: List[str] = []
 
     rs = inc.methods['_read_string']
     n = rs.params[1]
     try:
         sl, ad = analyse_reader(rs)
-        ok = sl == [('0', n)] and ad == [n]
+        ok = sl == [('0', n)] and totals[-1] == n  # (the total advance, in however many steps)
         why = f'slices {sl} advances {ad}'
     except lf.NotLinear as e:
         ok, why = False, str(e)
@@ -806,7 +822,7 @@ def prims(ctx: Any) -> List[Ob]:
     try:
         sl, ad = analyse_reader(rc)
         lenv = sl[0][1] if sl and sl[0][0] == 'byte@0' else '?'
-        ok = len(sl) == 2 and sl[0][0] == 'byte@0' and sl[1] == ('1', lenv) and ad == ['1', lenv]
+        ok = len(sl) == 2 and sl[0][0] == 'byte@0' and sl[1] == ('1', lenv) and totals[-1] == lf.p_str(lf.parse_poly(f'1 + {lenv}')) if lenv != '?' else False
         why = f'reads {sl} advances {ad}'
     except lf.NotLinear as e:
         ok, why = False, str(e)
@@ -814,9 +830,11 @@ def prims(ctx: Any) -> List[Ob]:
     out = prog.cls(OUT)
     wc = out.methods['write_character_string']
     v = wc.params[1]
-    calls = [(call_name(c), norm(c.args[0])) for c in walk_local_ordered(wc.node) if isinstance(c, ast.Call) and call_name(c) in ('_write_byte', 'write_string')]
-    lenv = [st.targets[0].id for st in walk_local_ordered(wc.node) if isinstance(st, ast.Assign) and norm(st.value) == f'len({v})']
-    obs.append(ob(R, wc, 'self._write_byte(length); self.write_string(value)', 'a character string is written as its length byte followed by its bytes', len(lenv) == 1 and calls == [('_write_byte', lenv[0]), ('write_string', v)]))
+    from .common import expand as _xp_w
+
+    # (the length read through the local that names it, or written in the argument)
+    calls = [(call_name(c), norm(_xp_w(wc, c.args[0]))) for c in walk_local_ordered(wc.node) if isinstance(c, ast.Call) and call_name(c) in ('_write_byte', 'write_string')]
+    obs.append(ob(R, wc, 'self._write_byte(length); self.write_string(value)', 'a character string is written as its length byte followed by its bytes', calls == [('_write_byte', f'len({v})'), ('write_string', v)]))
     # section loops run header-count times
     rq = inc.methods['_read_questions']
     loops = [x for x in walk_local_ordered(rq.node) if isinstance(x, ast.For)]
